@@ -526,6 +526,10 @@ func c15(c *Ctx) {
 			}
 			r.Check("constructPost:fresh-reader-per-attempt", ok, cl.Pos(), "the request body is bytes.NewReader(body) created inside the per-attempt closure (a shared reader is empty on a retry): "+pathOf(body))
 		}
+		retryWindowRule(r, post)
+		attemptIdempotent(r, req)
+		attemptResultNotRewritten(r, req)
+		respAfterErrCheck(r, req)
 		// the closure returned is that closure, and serialisation happens once, outside it
 		r.Check("constructPost:serialise-once", len(callsTo(req, "(*pkg/statsd.HttpForwarderHandlerV2).serialize", "(*pkg/statsd.HttpForwarderHandlerV2).serializeAndCompress")) == 0, req.Pos(), "the message is serialised once, not per attempt")
 		// non-2xx is an error
